@@ -184,7 +184,8 @@ func (p *parser) parseBool(n *yaml.Node) *Bool {
 	}
 
 	return &Bool{
-		Value: n.Value == "true",
+		// YAML spells the boolean "true" also as "True" and "TRUE"
+		Value: n.Value == "true" || n.Value == "True" || n.Value == "TRUE",
 		Pos:   posAt(n),
 	}
 }
